@@ -14,7 +14,9 @@ makes the burst deterministic); the census of successful creates / joins is
 compared with the limits; joins after host disconnect / expiry must get 404;
 The limiter primitives themselves (connection limiter, per-session receiver
 slots, token bucket) are stressed behind a spin barrier by an in-package test
-injected with `go test -overlay`.  Routing.tla histories (C10) additionally check the admission flag of every
+injected with `go test -overlay`; a second injected test forces join-code
+collisions in the session store with a scripted crypto/rand.Reader (codes of
+live sessions stay pairwise distinct and resolve to their own session).  Routing.tla histories (C10) additionally check the admission flag of every
 join against the real HTTP status.
 """
 import vlib
@@ -56,11 +58,15 @@ def run(tier, seed):
     lim = vlib.run_repo_overlay_test('./cmd/thruserv', 'shims/thruserv_limiter_test.go', 'zz_verif_limiter_test.go', 'TestVerif')
     for kind, detail in lim['violations']:
         v.violation(dict(kind=kind), dict(test='shims/thruserv_limiter_test.go', detail=detail))
+    # join-code collisions (scripted crypto/rand.Reader) in the session store, same mechanism
+    col = vlib.run_repo_overlay_test('./internal/session', 'shims/session_collision_test.go', 'zz_verif_collision_test.go', 'TestVerif')
+    for kind, detail in col['violations']:
+        v.violation(dict(kind=kind), dict(test='shims/session_collision_test.go', detail=detail))
     if res['drift']:
         raise vlib.HarnessTrouble("thruserv did not start for some scenario: %s" % str(res['drift_samples'][:1])[:300])
     v.coverage = dict(states=st, transitions=tr, traces_validated_against_impl=res['behaviours'], samples=res['samples'][:8],
                       tlc=dict(runs=runs, negative_controls_refuted=refuted),
-                      scenarios=res['extra'].get('cases'), limiter_primitives_stress=dict(ok=lim['ok']))
+                      scenarios=res['extra'].get('cases'), limiter_primitives_stress=dict(ok=lim['ok']), forced_join_code_collision=dict(ok=col['ok']))
     v.assumptions = ["'admits' is the join-code lookup; a peer that passed the lookup just before the host left is added to the hub of a dead session (observed, not judged)",
                      "rate limits are checked as 'never more than burst + rate x elapsed + 1' and 'at least the burst'",
                      "bursts are made deterministic by the hook's delay mode (120 ms between check and act)"]
